@@ -97,6 +97,7 @@ def gen(rng, tier):
             'horizon': t0 + rng.choice([6, 10, 15])}
     if long_life:
         case['horizon'] = t0 + 400
+        case['long_life'] = True
     return case
 
 
